@@ -16,7 +16,7 @@ int main() {
       std::vector<int> v; for (size_t i = 1; i < t.size(); ++i) v.push_back((int)L(t[i])); std::sort(v.begin(), v.end()); v.erase(std::unique(v.begin(), v.end()), v.end());
       if (o == "addv") { c->add_vertex(); ++nv; return "addv"; }
       if (o == "adde") { int a = (int)L(t[1]), b = (int)L(t[2]); if (a != b && c->contains_vertex(VH(a)) && c->contains_vertex(VH(b)) && !c->contains_edge(VH(a), VH(b))) c->add_edge(VH(a), VH(b)); return "adde"; }
-      if (o == "adds") { c->add_simplex(tos(v)); return "adds"; }
+      if (o == "adds") { c->add_simplex(tos(v)); if (!v.empty()) nv = std::max(nv, v.back() + 1); return "adds"; }
       if (o == "rmstar") { c->remove_star(tos(v)); return "rmstar"; }
       if (o == "link") { return std::string("link ") + (c->link_condition(VH((int)L(t[1])), VH((int)L(t[2]))) ? "1" : "0"); }
       if (o == "contract") { int a = (int)L(t[1]), b = (int)L(t[2]); if (a != b && c->contains_vertex(VH(a)) && c->contains_vertex(VH(b)) && c->contains_edge(VH(a), VH(b)) && c->link_condition(VH(a), VH(b))) { c->contract_edge(VH(a), VH(b)); return "contract 1"; } return "contract 0"; }
@@ -25,6 +25,7 @@ int main() {
         std::vector<std::vector<int>> bl; for (auto b : c->const_blocker_range()) { std::vector<int> s; for (auto x : *b) s.push_back((int)x.vertex); std::sort(s.begin(), s.end()); bl.push_back(s); }
         std::sort(bl.begin(), bl.end()); r << "\nblockers"; for (auto& s : bl) { r << " "; for (size_t i = 0; i < s.size(); ++i) { if (i) r << ","; r << s[i]; } }
         if (bl.size() != c->num_blockers()) r << " num_blockers-disagrees";
+        { int cnt = 0; for (auto x : c->vertex_range()) { (void)x; ++cnt; } r << "\nnverts " << c->num_vertices(); if (cnt != (int)c->num_vertices()) r << " vertex_range-disagrees"; }
         return r.str(); }
       return "bad-op"; });
     std::cout << out << "\n"; });
